@@ -135,6 +135,7 @@ class ModuleInfo:
         if name == 'yatiml' or name.startswith('yatiml.'):
             from .normalize import normalize
             from .inline import canonical_decomposition
+            self._tree_id = id(self.tree)
             if not os.environ.get('SA_NO_INLINE'):
                 self.decomposition_log = canonical_decomposition(self.tree, name)
             self.tree = normalize(self.tree)
@@ -145,6 +146,11 @@ class ModuleInfo:
         self.classes: Dict[str, ClassInfo] = {}
         self.constants: Dict[str, ast.AST] = {}   # module-level NAME = expr
         self._index()
+        if name == 'yatiml' or name.startswith('yatiml.'):
+            from .inline import ALIASES
+            for old, new in ALIASES.pop(self._tree_id, {}).items():
+                if new in self.functions and old not in self.functions:
+                    self.functions[old] = self.functions[new]
 
     def _index(self):
         for n in ast.walk(self.tree):
